@@ -302,12 +302,27 @@ FIXED_PROGRAMS = [
 ]
 
 
+def _mark_view(marks) -> list[dict]:
+    return [{"start": (m.line_number, m.column_number), "end": (m.end_line_number, m.end_column_number), "name": m.name,
+             "vals": (m.x_offset, m.y_offset, m.x_relative, m.y_relative)} for m in marks]
+
+
 def listing(text: str) -> list[dict]:
     r = _repo()
     with _quiet():
         marks = r.Visitor().visit(r.Reader(text).read())
-    return [{"start": (m.line_number, m.column_number), "end": (m.end_line_number, m.end_column_number), "name": m.name,
-             "vals": (m.x_offset, m.y_offset, m.x_relative, m.y_relative)} for m in marks]
+    return _mark_view(marks)
+
+
+def listing_same_visitor_again(text: str) -> list[dict]:
+    """The listing of `text` from a visitor object that has already listed it once (an editor re-lists after every edit):
+    "exactly one entry per literal" holds for every listing, not only for the first one of a visitor."""
+    r = _repo()
+    with _quiet():
+        v = r.Visitor()
+        list(v.visit(r.Reader(text).read()) or [])
+        marks = v.visit(r.Reader(text).read())
+    return _mark_view(marks)
 
 
 class CompileTimeout(Exception):
@@ -401,6 +416,13 @@ def check_program(prog: dict, edits_seed: str = "e") -> tuple[int, list[dict], l
         sites = sorted({l["site"] for l in lits})
         fails.append(_v(f"C18:listing:count:{'+'.join(sites)[:80]}", f"{len(ents)} entries for {len(scanned)} literals", inp_base, CONTRACT_L, [e["name"] for e in ents]))
         return n, fails, selfcheck
+    try:
+        again = listing_same_visitor_again(text)
+    except Exception as e:
+        again = None
+        fails.append(_v(f"C18:listing:second-listing-raises-{type(e).__name__}", f"a visitor that has listed the file once raises {e!r} on the second listing", inp_base, CONTRACT_L, repr(e)))
+    if again is not None and again != ents:
+        fails.append(_v("C18:listing:second-listing-of-the-same-visitor-differs", f"{len(again)} entries on the second listing of the same visitor object, {len(ents)} on the first", inp_base, CONTRACT_L, [e["name"] for e in again]))
     order_ok = [e["start"] for e in ents] == sorted(e["start"] for e in ents)
     if not order_ok:
         fails.append(_v("C18:listing:not-in-source-order", f"entries are not in source order: {[e['start'] for e in ents]}", inp_base, CONTRACT_L, [e["start"] for e in ents]))
